@@ -3,10 +3,12 @@ CONSTANTS
   Unguarded = {}
   Unwrapped = {}
   DepthRestore = "parent"
+  ContextDropped = FALSE
 INIT Init
 NEXT Next
 INVARIANTS
   NoPanic
+  NoHang
   ResultOrError
   AssertionIffNoError
   ErrorShape
